@@ -227,6 +227,8 @@ struct EDump {
     at: RCid,
     changes: BTreeMap<String, RCid>,
     attrs: BTreeMap<String, Vec<String>>,
+    /// attributes whose value set type overrides `repl_merge_valueset` (C11's subject)
+    merging: BTreeSet<String>,
 }
 
 fn dump_entry(e: &EntrySealedCommitted) -> EDump {
@@ -234,12 +236,16 @@ fn dump_entry(e: &EntrySealedCommitted) -> EDump {
     let st = if has(EntryClass::Tombstone) { 'T' } else if has(EntryClass::Conflict) { 'C' } else if has(EntryClass::Recycled) { 'R' } else { 'L' };
     let (live, at, changes) = hk12::entry_changestate(e);
     let mut attrs = BTreeMap::new();
+    let mut merging = BTreeSet::new();
     for (a, vs) in e.get_ava_iter() {
         let mut v: Vec<String> = vs.to_proto_string_clone_iter().collect();
         v.sort();
         attrs.insert(a.as_str().to_string(), v);
+        if matches!(vs.syntax(), SyntaxType::AuditLogString | SyntaxType::Session | SyntaxType::Oauth2Session | SyntaxType::ApiToken | SyntaxType::KeyInternal) {
+            merging.insert(a.as_str().to_string());
+        }
     }
-    EDump { st, live, at: (at.ts, at.s_uuid), changes: changes.into_iter().map(|(a, c)| (a.as_str().to_string(), (c.ts, c.s_uuid))).collect(), attrs }
+    EDump { st, live, at: (at.ts, at.s_uuid), changes: changes.into_iter().map(|(a, c)| (a.as_str().to_string(), (c.ts, c.s_uuid))).collect(), attrs, merging }
 }
 
 struct Dump {
@@ -361,6 +367,7 @@ struct Stats {
     wire_entries_checked: u64,
     cells_compared: u64,
     cells_restamped: u64,
+    cells_merging: u64,
     uuid_clashes: u64,
     schema_parked: u64,
     refreshes: u64,
@@ -421,11 +428,12 @@ fn repl_step(c: &mut Cluster, drv: &mut Driver, from: usize, to: usize, step: us
             at: w.at,
             changes: w.cells.iter().map(|(a, (c, _))| (a.clone(), *c)).collect(),
             attrs: w.cells.iter().filter(|(_, (_, p))| *p).map(|(a, _)| (a.clone(), sup_e.and_then(|s| s.attrs.get(a).cloned()).unwrap_or_default())).collect(),
+            merging: BTreeSet::new(),
         };
         // the database side: the entry, or the stub `incremental_prepare` makes
         let db = match pre.ents.get(&w.uuid) {
             Some(d) => d.clone(),
-            None => EDump { st: 'L', live: w.live, at: w.at, changes: BTreeMap::new(), attrs: BTreeMap::new() },
+            None => EDump { st: 'L', live: w.live, at: w.at, changes: BTreeMap::new(), attrs: BTreeMap::new(), merging: BTreeSet::new() },
         };
         if db.live && inc.live && db.at != inc.at {
             st.uuid_clashes += 1;
@@ -476,6 +484,11 @@ fn repl_step(c: &mut Cluster, drv: &mut Driver, from: usize, to: usize, step: us
                 // class / source_uuid of an entry parked as a conflict are rewritten without a new cid
                 let name = it.attrs.iter().find(|(_, v)| v.to_string() == *k).map(|(n, _)| n.clone()).unwrap_or_default();
                 if post_e.st == 'C' && (name == "class" || name == "source_uuid") {
+                    continue;
+                }
+                // value sets that merge instead of choosing are C11's subject: the cid is compared, the value is not
+                if post_e.merging.contains(&name) || db.merging.contains(&name) || sup_e.map(|s| s.merging.contains(&name)).unwrap_or(false) {
+                    st.cells_merging += 1;
                     continue;
                 }
                 if mat.get(k) != iat.get(k) {
@@ -785,6 +798,7 @@ fn run_case(drv: &mut Driver, rep: &mut Report, g: &mut Global, prefix: &str, n:
         ("wire-entries-checked-against-model", st.wire_entries_checked),
         ("cells-compared", st.cells_compared),
         ("cells-restamped-by-consumer-plugins", st.cells_restamped),
+        ("cells-of-merging-valuesets-cid-only", st.cells_merging),
         ("uuid-clashes-on-the-wire", st.uuid_clashes),
         ("entries-parked-as-conflict", st.schema_parked),
         ("refreshes", st.refreshes),
